@@ -939,8 +939,15 @@ def full_api_replays(rep, seed, n=60):
         A = algopy.reshape(x, (2, 2)) + W
         return z * algopy.det(A) + algopy.logdet(A) + algopy.trace(A) * algopy.prod(z) + algopy.expm(A * 0.1)[0]
 
+    def p_rational(x, z):
+        # defined for every numeric kind of plain array (float, complex, integer) and of polynomial
+        b = algopy.zeros(2, dtype=x)
+        b[0] = x[0] * z[1]
+        b[1] = x[1] - x[3]
+        return algopy.sum(x * x * z[0]) + algopy.dot(x[:2], z) * x[3] - x[1] / (x[2] + 2) + algopy.sum(b * b[::-1])
+
     progs = [p_pow_traced, p_buffer, p_fft_axis, p_views, p_linalg, p_consts, p_sum_axes, p_special,
-             p_reflected, p_const_left_linalg, p_shape_props, p_zeros_ones_like, p_factorizations, p_det_family]
+             p_reflected, p_const_left_linalg, p_shape_props, p_zeros_ones_like, p_factorizations, p_det_family, p_rational]
     for it in range(n):
         f = progs[it % len(progs)]
         order = rnd.choice(["xz", "zx"])           # the order in which the independents are LISTED
@@ -968,9 +975,17 @@ def full_api_replays(rep, seed, n=60):
             cg.independentFunctionList = [fx, fz] if order == "xz" else [fz, fx]
             cg.dependentFunctionList = [fy]
             for rep_i in range(3):
-                kind = rnd.choice(["arr", "utpm"])
+                kind = rnd.choice(["arr", "utpm"] if f is not p_rational else ["carr", "iarr", "cutpm", "arr", "utpm"])
                 if kind == "arr":
                     xa = numpy.array([rnd.uniform(0.2, 1.2) for _ in range(4)]); za = numpy.array([rnd.uniform(0.5, 1.5) for _ in range(2)])
+                elif kind == "carr":      # plain complex arrays
+                    xa = numpy.array([complex(rnd.uniform(0.2, 1.2), rnd.uniform(-1, 1)) for _ in range(4)]); za = numpy.array([complex(rnd.uniform(0.5, 1.5), rnd.uniform(-1, 1)) for _ in range(2)])
+                elif kind == "iarr":      # plain integer arrays
+                    xa = numpy.array([rnd.randint(1, 5) for _ in range(4)]); za = numpy.array([rnd.randint(1, 4) for _ in range(2)])
+                elif kind == "cutpm":
+                    D = rnd.choice([1, 2, 3]); P = rnd.choice([1, 2])
+                    xa = UTPM(numpy.array([[[complex(rnd.uniform(0.2, 1.2), rnd.uniform(-1, 1)) for _ in range(4)] for _ in range(P)] for _ in range(D)]))
+                    za = UTPM(numpy.array([[[complex(rnd.uniform(0.5, 1.5), rnd.uniform(-1, 1)) for _ in range(2)] for _ in range(P)] for _ in range(D)]))
                 else:
                     D = rnd.choice([1, 2, 3]); P = rnd.choice([1, 2])
                     xa = UTPM(numpy.array([[[rnd.uniform(0.2, 1.2) for _ in range(4)] for _ in range(P)] for _ in range(D)]))
